@@ -25,6 +25,8 @@ HashOk(ev) == /\ ("ref" \in DOMAIN ev => (ev.ref # "missing" /\ ev.out = ev.ref)
               /\ (Id(ev) \in DOMAIN seen => seen[Id(ev)] = ev.out)
               \* single-call hashing leaves the caller's rounding direction as it was (C13 / C17, fenv form)
               /\ ("rcBefore" \in DOMAIN ev /\ ev.rcBefore >= 0 => ev.rcAfter = ev.rcBefore)
+              \* ... and, where the caller's environment was set through MXCSR, the whole control/status word
+              /\ ("csrBefore" \in DOMAIN ev => ev.csrAfter = ev.csrBefore)
 \* intermediate and auxiliary results that must not depend on the build either: register file after
 \* each program of a hash, dataset items
 AuxId(ev) == IF ev.e = "prog" THEN <<"prog", ev.key, ev.input, ev.v2, ev.idx>> ELSE <<"item", ev.key, ev.hi, ev.lo>>
